@@ -1,9 +1,11 @@
 /-
   C01 — generated parsers implement PEG matching (part proved so far on the full runtime model:
-  "an expression that fails consumes nothing"; the refinement to the PEG specification is in
-  Properties/C01Spec.lean).
+  "an expression that fails consumes nothing") and, for the plain configuration, the refinement
+  theorem: the runtime model computes exactly the PEG specification `Spec.eval` (Spec/Peg.lean).
 -/
 import PigeonVerif.Proofs.StoreLemmas
+import PigeonVerif.Proofs.Refine
+import PigeonVerif.Properties.C02
 
 namespace PV
 namespace RT
@@ -53,6 +55,60 @@ theorem C01_predicates_consume_nothing (E : Env) (f : Nat) (id : Nat) (e1 : Expr
       simp only [Outcome.bind]
       intro hb; injection hb with h1 h2 h3
       subst h1 h3; simp
+
+/-! ### the runtime is the PEG specification -/
+
+/-- **C01 (c) — refinement.** With default options apart from the ones the specification does not
+    describe (no `Memoize`, no `MaxExpressions`, no left-recursive rules), for EVERY grammar, code
+    environment, input, depth, expression and reachable parser state, `parseExpr` returns what the
+    PEG specification `Spec.eval` prescribes: success or failure; on success the value, the end
+    position and the labels in scope; in both cases the world — state store, global store, recorded
+    errors, and the complete sequence of code-block invocations with the position, text, arguments
+    and stores each of them saw. All PEG laws (ordered choice, greedy repetition without
+    backtracking into it, predicates consuming nothing, failure restoring position and state,
+    literal and class matching rune by rune, recovery through the innermost handler) are read off
+    the 150-line specification instead of the 700-line runtime model. -/
+theorem C01_runtime_is_peg (E : Env) (hp : Plain E) (f : Nat) (e : Expr) (s : PState) (hg : Good E s) :
+    abs (parseExpr E f e s) = Spec.eval E f (ctxOf s) e (envOf s) s.pt (absW s) :=
+  parseExpr_refines hp f e s hg
+
+/-- the state in which `parse` evaluates the start rule is one the theorem applies to (its
+    hypotheses are met by every run, not by no run) -/
+theorem C01_start_is_good (E : Env) (r : Rule) : Good E (pushV { startState E with rstack := [r] }) :=
+  ⟨by simp [pushV], (startState_ptinv E).congr rfl rfl,
+   fun e he => by simp [pushV, startState, initState] at he⟩
+
+/-- **C01 (d) — whole parse.** The outcome `parse` hands to its result contract is the start rule
+    evaluated by the specification: `Spec.parse` (first read, then `Spec.eval` of the entry rule's
+    expression in an empty label scope) is the abstraction of what the runtime computed. -/
+theorem C01_parse_is_peg (E : Env) (hp : Plain E) (fuel : Nat) (first : Rule) (rest : List Rule)
+    (hr : E.rules = first :: rest) (r : Rule) (hf : E.findRule (entryName E first) = some r) :
+    Spec.parse E fuel = some (abs (parseExpr E fuel r.expr (pushV { startState E with rstack := [r] }))) ∧
+    parse E fuel = finish E (parseRule E (parseExpr E fuel) r (startState E)) := by
+  constructor
+  · unfold Spec.parse
+    simp only [hr, hf]
+    rw [C01_runtime_is_peg E hp fuel r.expr _ (C01_start_is_good E r)]
+    have h := read_advance E (initState E)
+    have h1 : Spec.advance E { rule := none, handlers := [] } pt0
+        { state := if E.useState then E.opts.initState else [], global := E.opts.initGlobal, errs := [],
+          curPos := { line := 0, col := 0, off := 0 }, curText := [], nCalls := 0, trace := [] } =
+        ((read E (initState E)).pt, absW (read E (initState E))) := h.symm
+    rw [h1]
+    have c1 : ctxOf (pushV { startState E with rstack := [r] }) = { rule := some r, handlers := [] } := by
+      simp [ctxOf, pushV, startState, initState]
+    have c2 : envOf (pushV { startState E with rstack := [r] }) = [] := rfl
+    have c3 : (pushV { startState E with rstack := [r] }).pt = (read E (initState E)).pt := rfl
+    have c4 : absW (pushV { startState E with rstack := [r] }) = absW (read E (initState E)) := rfl
+    rw [c1, c2, c3, c4]
+  · unfold parse
+    simp only [hr, hf]
+    rw [ruleWrap_eq hp fuel _ r hf]
+
+/-- `Plain` is satisfiable (the theorem is not vacuous): any environment without memoization, budget
+    and left-recursion flags -/
+example (E : Env) (h1 : E.opts.memoize = false) (h2 : E.opts.maxExpr = none)
+    (h3 : ∀ n r, E.findRule n = some r → r.leftRecursive = false ∧ r.leader = false) : Plain E := ⟨h1, h2, h3⟩
 
 end RT
 end PV
